@@ -508,6 +508,7 @@ func runC04(c *kit.Ctx) {
 			c.Violation("C04:dropped-although-backlog-never-exceeded-limit", detail)
 		}
 	}
+	c04FlvPipeline(c)
 	// directed alignment scenarios (multi-slice key pictures, backlog crossing the limit between two slices)
 	di := 0
 	for rep := 0; rep < c.Pick(1, 10); rep++ {
